@@ -118,6 +118,83 @@ func verifH_C09_publishsizes() {
 	verifReach("end")
 }
 
+// L09.b for every payload length at once: the length is a solver variable
+// (length-only slice), so the remaining-length encoding is checked at every
+// width boundary (127/128, 16383/16384, 2097151/2097152) and the 268,435,455
+// limit, not at sampled sizes.
+func verifH_C09_publishlength() {
+	n := verifInt("msglen")
+	verifAssume(n >= 0)
+	verifAssume(n <= 1<<28+16)
+	msg := verifVirtualBytes(n)
+	qos := verifChoose("qos", 3)
+	tl := 1 + verifChoose("topiclen", 2)
+	topic := "abc"[:tl]
+	var space uint
+	switch qos {
+	case 1:
+		space = atLeastOnceIDSpace | uint(verifU16("seq"))&publishIDMask
+	case 2:
+		space = exactlyOnceIDSpace | uint(verifU16("seq"))&publishIDMask
+	}
+	head := byte(typePUBLISH<<4) | byte(qos<<1)
+	var buf [bufSize]byte
+	packet, err := publishPacket(&buf, msg, topic, space, head)
+	body := 2 + tl + n
+	if qos > 0 {
+		body += 2
+	}
+	if body > 268435455 {
+		verifAssert(err != nil, "C09: a PUBLISH over 268,435,455 bytes is accepted")
+		if err != nil {
+			verifAssert(IsDeny(err), "C09: oversized PUBLISH refused with something else than IsDeny")
+		}
+		verifReach("too-big")
+		return
+	}
+	verifAssert(err == nil, "C09: valid PUBLISH refused")
+	if err != nil {
+		return
+	}
+	verifAssert(len(packet) == 2, "C09: PUBLISH is not header + payload")
+	hdr := packet[0]
+	verifAssert(len(hdr) >= 2, "C09: header too short")
+	verifAssert(hdr[0] == head, "C09: first byte differs from the requested type and flags")
+	v, k := 0, 0
+	for i := 1; k == 0; i++ {
+		verifAssert(i <= 4, "C09: remaining length takes more than 4 bytes")
+		verifAssert(i < len(hdr), "C09: remaining length runs past the header")
+		if i > 4 || i >= len(hdr) {
+			return
+		}
+		d := hdr[i]
+		v |= int(d&0x7f) << (7 * uint(i-1))
+		if d&0x80 == 0 {
+			k = i
+		}
+	}
+	verifAssert(v == body, "C09: remaining length differs from the true size")
+	if k > 1 {
+		verifAssert(hdr[k] != 0, "C09: remaining length is not the minimal encoding")
+	}
+	// the rest of the header is topic (+ identifier), exactly as the reference has it
+	ref := verifRefPublish(false, qos, false, []byte(topic), uint16(space), nil)
+	verifAssert(verifBytesEq(hdr[1+k:], ref[2:]), "C09: variable header differs from the reference")
+	verifAssert(len(packet[1]) == n, "C09: payload length differs from the message")
+	verifAssert(len(hdr)-1-k+len(packet[1]) == body, "C09: packet size differs from the remaining length")
+	switch k {
+	case 1:
+		verifReach("len1")
+	case 2:
+		verifReach("len2")
+	case 3:
+		verifReach("len3")
+	case 4:
+		verifReach("len4")
+	}
+	verifReach("end")
+}
+
 // L09.c SUBSCRIBE / UNSUBSCRIBE through the real request methods.
 func verifH_C09_subscribe() {
 	store := &verifStore{}
